@@ -124,6 +124,18 @@ def inv(t):
             out = t._new(mi.copy())
             LOG.append({'fn': 'inv', 'arg': a.copy(), 'out': out.a, 'how': 'closed-form'})
             return out
+    if _is_concrete(a) and T.FLOAT_MODE[0]:
+        f = np.array([[float(v) for v in row] for row in a.tolist()], dtype=np.float64)
+        try:
+            fi = np.linalg.inv(f)
+        except np.linalg.LinAlgError:
+            raise RuntimeError('linalg.inv: singular matrix') from None
+        out = np.empty(fi.shape, dtype=object)
+        for i in range(fi.shape[0]):
+            for j in range(fi.shape[1]):
+                out[i, j] = float(fi[i, j])
+        LOG.append({'fn': 'inv', 'arg': a.copy(), 'out': out, 'how': 'numeric'})
+        return t._new(out)
     if _is_concrete(a):
         out = t._new(_gauss_inv(a))
         LOG.append({'fn': 'inv', 'arg': a.copy(), 'out': out.a, 'how': 'exact'})
@@ -151,10 +163,11 @@ def _numeric_eigh(a):
     d, q = np.linalg.eigh(f)
     dd = np.empty(d.shape, dtype=object)
     qq = np.empty(q.shape, dtype=object)
+    conv = float if T.FLOAT_MODE[0] else (lambda v: Fraction(float(v)))
     for i in range(d.shape[0]):
-        dd[i] = Fraction(float(d[i]))
+        dd[i] = conv(d[i])
         for j in range(q.shape[1]):
-            qq[i, j] = Fraction(float(q[i, j]))
+            qq[i, j] = conv(q[i, j])
     return dd, qq
 
 
